@@ -46,6 +46,11 @@ func GetFilesWithFilter(codeDir string, filter func(path string) bool) []string 
 			return nil
 		}
 
+		if fi != nil && fi.IsDir() {
+			// a directory is not a source file, whatever its name ends in (vendor/github.com/nats-io/nats.go)
+			return nil
+		}
+
 		if filter(path) {
 			files = append(files, path)
 		}
